@@ -54,7 +54,7 @@ fn ident_universe() -> Vec<String> {
         "a1", "a01", "a001", "a2", "a10", "a1b", "a01b", "a1_2", "a01_2", "a1_02", "x86_64", "x86_064", "x086_64",
         "u8", "u16", "u064", "A1", "A01", "A_1", "_1", "_01", "0", "00", "1", "9a",
         "r#zed", "r#Zed", "r#a1", "r#r#a", "r#", "r", "::a", "::A", "::a1", "::", "::r#a",
-        "Ünï", "ünï", "Ü", "É1", "a٣", "a٣b", "A٣", "٣", "A²", "Ü_٣", "ǅ", "ß", "a!b", "a/b", "a b",
+        "Ünï", "ünï", "Ü", "É1", "a٣", "a٣b", "A٣", "٣", "A²", "Ü_٣", "ǅ", "ß", "a!b", "a/b", "a b", "größe_1", "é_x", "maß2",
     ]
     .iter()
     .map(|s| s.to_string())
@@ -458,6 +458,12 @@ pub fn run(tier: &str, seed: u64, out: &Path) -> i32 {
     let mut o = Outcome::new("C11", tier, seed);
     let thorough = tier == "thorough";
     let mut rng = Rng::new(seed ^ 0xc11);
+    if !screen_idents(&mut o) {
+        // the comparison itself panics on some identifier: that identifier is the failing input; the parts below call
+        // the same functions in-process and would only die on it
+        o.count("skipped-after-a-panicking-comparison");
+        return o.finish(out, crate::util::jobs());
+    }
     part_idents(&mut o, &mut rng, thorough);
     part_trees(&mut o, &mut rng, thorough);
     part_items(&mut o, &mut rng, thorough);
@@ -469,6 +475,31 @@ pub fn run(tier: &str, seed: u64, out: &Path) -> i32 {
 }
 
 // ------------------------------------------------------------------ 1. identifiers
+
+/// "sorting can neither fail": every comparison of the identifier universe is first run under catch_unwind, so
+/// that a comparison which panics is reported with the identifier it panics on
+fn screen_idents(o: &mut Outcome) -> bool {
+    let u = ident_universe();
+    let mut ok = true;
+    for s in &u {
+        let probe = "a1".to_string();
+        let r = std::panic::catch_unwind(std::panic::AssertUnwindSafe(|| {
+            let _ = hi::version_chunks(s);
+            for (a, b) in [(s, s), (s, &probe), (&probe, s)] {
+                let _ = hi::version_sort(a, b);
+                let _ = hi::ident_cmp(a, b, StyleEdition::Edition2021);
+                let _ = hi::ident_cmp(a, b, StyleEdition::Edition2024);
+            }
+        }));
+        o.direct_evals += 1;
+        if r.is_err() {
+            ok = false;
+            o.direct_failures.push(json!({"sig": "c11:comparison-panics", "what": "comparing this identifier (version_sort / the identifier order of a style edition) panics: sorting a list that holds it fails", "ident": s, "src": format!("use m::{{{}, a1}};\nmod {};\nmod a1;\n", s, s), "config": "style_edition=2024"}));
+        }
+    }
+    o.count_n("idents:screened-for-panics", u.len() as u64);
+    ok
+}
 
 fn part_idents(o: &mut Outcome, rng: &mut Rng, thorough: bool) {
     let mut u = ident_universe();
